@@ -7,7 +7,7 @@ harnesses.  The list of function bodies comes from clang's AST of all headers (s
 are visible as `never instantiated`).  Result: /verif/coverage.json and /verif/COVERAGE.md.
 
 This is a measurement of the *tie* (what the differential runs can see), not a check: it raises no alarm.
-usage: python3 tools/coverage.py [Cxx ...]
+usage: python3 tools/coverage.py [Cxx ...]   (with ids: report goes to /root/scratch/coverage_<ids>/, the committed report is left alone)
 """
 import bisect
 import glob
@@ -26,7 +26,7 @@ sys.path.insert(0, VERIF)
 from vlib import core  # noqa: E402
 from extract import astwalk  # noqa: E402
 
-COV = os.path.join(VERIF, "build", "cov")
+COV = os.path.join(VERIF, "build", "cov_%d" % os.getpid())
 HDR = os.path.join(core.REPO, "src", "cocls")
 
 
@@ -138,6 +138,9 @@ def function_bodies():
 
 def main():
     ids = [a.upper() for a in sys.argv[1:]] or all_ids()
+    # a partial run (some properties only) does not overwrite the committed whole-library report
+    outdir = VERIF if not sys.argv[1:] else os.path.join("/root/scratch", "coverage_" + "_".join(ids))
+    os.makedirs(outdir, exist_ok=True)
     t0 = time.time()
     merged, per_harness, done = {}, {}, {}
     for pid in ids:
@@ -188,7 +191,7 @@ def main():
         report["headers"][hdr] = {"lines_executable": len(ex), "lines_executed": len(hit),
                                   "unexecuted_lines": [ln for ln in ex if m[ln] == 0],
                                   "functions": fl}
-    with open(os.path.join(VERIF, "coverage.json"), "w") as f:
+    with open(os.path.join(outdir, "coverage.json"), "w") as f:
         json.dump(report, f, indent=1, sort_keys=True)
     # markdown summary
     L = ["# What the correspondence harnesses execute of /repo/src/cocls", "",
@@ -212,9 +215,10 @@ def main():
         miss = [x for x in r["functions"] if x["state"] != "executed"]
         if miss:
             L.append("* **%s**: " % hdr + "; ".join("`%s` (l.%d, %s)" % (x["name"], x["lines"][0], x["state"].replace("-", " ")) for x in miss))
-    with open(os.path.join(VERIF, "COVERAGE.md"), "w") as f:
+    with open(os.path.join(outdir, "COVERAGE.md"), "w") as f:
         f.write("\n".join(L) + "\n")
     shutil.rmtree(COV, ignore_errors=True)
+    print("coverage: report in %s/COVERAGE.md" % outdir)
     print("coverage: %d/%d function bodies executed, %d/%d executable lines, %.0fs" % (tot[1], tot[0], tot[5], tot[4], time.time() - t0))
 
 
